@@ -210,9 +210,13 @@ def analyse(prop, tier='quick', index=None):
                     'rule %s generated %d obligations, needs >= %d' %
                     (rule, have, need))
     except AnalysisError as err:
-        res.code = 2
-        res.error = str(err)
-        return res
+        if not any(not o.ok for o in ctx.obs):
+            res.code = 2
+            res.error = str(err)
+            return res
+        # obligations already failed: report them; the part of the analysis
+        # that could not be carried out is recorded as a note
+        ctx.note('analysis stopped early: %s' % err)
     except RecursionError:
         res.code = 2
         res.error = 'internal error: recursion limit'
